@@ -41,6 +41,20 @@ class Effects:
                 l = strip(n["x"])
                 if l.get("k") == "Ref" and l.get("rk") == "local" and l.get("p"):
                     assigns.append((l["id"], n["y"]))
+            elif n.get("k") == "Call" and n.get("callee") != "utilAssert":
+                # f(&v, .., buf, ..): the callee may leave in the local pointer v an address inside any buffer it was given
+                # (derDec2(&v, &l, der, ..), derTLDec): v takes the origins of the other pointer arguments
+                outs = []
+                for a in n["a"]:
+                    sa = strip(a)
+                    if sa.get("k") == "Un" and sa["op"] == "&":
+                        t = strip(sa["e"])
+                        if t.get("k") == "Ref" and t.get("rk") == "local" and t.get("p"):
+                            outs.append((t["id"], a))
+                for vid, self_arg in outs:
+                    for a in n["a"]:
+                        if a is not self_arg and strip(a).get("k") != "Un":
+                            assigns.append((vid, a))
         while changed:
             changed = False
             for vid, rhs in assigns:
